@@ -13,37 +13,37 @@ CHECKS = {
                 text="Every expression tree up to the node bound over the construct alphabet (both whitespace modes, a plain nullable rule, @char classes, every escape spelling, every printable ASCII character as a case-insensitive literal against all 7-bit bytes, every tree up to 5 nodes over the same text as sensitive and insensitive literal, choices of 15..34 alternatives, includes of single-token bodies carrying the opposite skip mode, and the left-recursive corpus of C07 thinned) is compiled by the real generator and rustc and run on every string up to the length bound; acceptance and consumed bytes must equal the reference interpreter's. Exhaustive inside the stated bounds, silent outside them.",
                 ref="§3 C01"),
     "C02": dict(engine="e1-conform", technique="bounded-exhaustive enumeration of rule shapes x inputs on real generated parsers; structural comparison of the Debug tree with the reference tree",
-                text="All field-carrying trees up to the node bound (incl. plain nullable rules), the override family, @string rules of every small body shape (lone literals, case-insensitive literals, ranges) under every combination of @no_skip_ws / @position and both root modes, @char rules (twin-case ranges, nested classes) delivering characters into fields, overrides and closures, and every head x context x field-bundle x tail combination (17 bundles, incl. empty alternatives that are not the last), on all inputs up to the length bound: the Debug tree of the real result, read structurally, must hold exactly the reference's matches per field, in order, with the right variant.",
+                text="All field-carrying trees up to the node bound (incl. plain nullable rules), the override family, @string rules of every small body shape (lone literals, case-insensitive literals, ranges) under every combination of @no_skip_ws / @position and both root modes, @char rules (twin-case ranges, nested classes) delivering characters into fields, overrides and closures, keyword-named fields bound by several parts of a sequence, and every head x context x field-bundle x tail combination (17 bundles, incl. empty alternatives that are not the last), on all inputs up to the length bound: the Debug tree of the real result, read structurally, must hold exactly the reference's matches per field, in order, with the right variant.",
                 ref="§3 C02"),
     "C03": dict(engine="e2-shapes", technique="bounded-exhaustive enumeration of rule shapes x names x derive sets through the real code generator, with rustc as the checker of generated exact-type assertions",
                 text="The C02 shape space (all field trees up to the node bound, override family, contexts x bundles x tails), 11 rule kinds x 11 bundles x 5 wrappers, recursive shapes whose cycle is broken by * or Vec under 4 directive sets, and every raw-able Rust keyword as field name, rule name and @char rule name, rotating over 5 derive sets: each generated module is compiled (crate carries forbid(unsafe_code)) together with assertions computed from the documented mapping - exhaustive destructuring without `..`, a typed let per field (Option/Vec/Box/enum exactly), wildcard-free matches over every generated enum with typed payloads, PegPosition/PegParser/derive bounds. A module rustc rejects is attributed to its grammar.",
                 ref="§3 C03", note="Trusted: rustc as judge; engine/refpeg/src/shape.rs as the reading of the documented mapping. Outside the quantifier: names colliding with prelude/peginator items."),
     "C04": dict(engine="e1-conform", technique="bounded-exhaustive enumeration of byte-level-sensitive grammars x multi-byte inputs on real parsers with the cfg(peginator_verif) boundary assertion on",
-                text="Trees over multi-byte literals, ASCII/non-ASCII ranges, insensitive literals, char, @char classes and an extern rule, on every string up to the length bound over a 14-character alphabet (atoms incl. a range with descending bounds) chosen for shared continuation bytes, lead bytes equal to Latin-1 code points and Unicode case-folding traps (KELVIN SIGN, İ) and over a second alphabet of multi-byte Unicode white space (NEL, NBSP, U+2003, U+2028, U+3000), long multi-byte inputs also run under the built-in tracer, plus a guard family of non-ASCII case-insensitive literals that the compiler may reject: no panic (the hook turns a split sequence into one), every exposed offset on a char boundary, every string a substring, acceptance equal to the reference.",
+                text="Trees over multi-byte literals, ASCII/non-ASCII ranges, insensitive literals, char, @char classes and an extern rule, on every string up to the length bound over a 14-character alphabet (atoms incl. a range with descending bounds) chosen for shared continuation bytes, lead bytes equal to Latin-1 code points and Unicode case-folding traps (KELVIN SIGN, İ) and over a second alphabet of multi-byte Unicode white space (NEL, NBSP, U+2003, U+2028, U+3000), U+FEFF and characters with lead byte 0xE0, long multi-byte inputs also run under the built-in tracer, plus a guard family of non-ASCII case-insensitive literals that the compiler may reject: no panic (the hook turns a split sequence into one), every exposed offset on a char boundary, every string a substring, acceptance equal to the reference.",
                 ref="§3 C04"),
     "C05": dict(engine="e1-conform", technique="bounded-exhaustive differential exploration: every subset of @memoize markers x every input, real-vs-real, plus every ordered pair of parse calls",
-                text="For every base grammar of the family (rules reached repeatedly at one offset through different contexts; all-@no_skip_ws, every mixed skip-mode assignment with whitespace in the inputs, with a pure refusing @check on a rule, two memoized rules related by `@:`, memoized rules that are also pulled in with `>` from includers of either skip mode, long inputs (up to 4097 repetitions; thorough 65537) incl. a grammar whose second alternative re-reads the whole prefix, a memoized rule evaluated inside a @string rule's body and from a field at one offset, and a memoized recursive rule reached through call paths of different depth on inputs nested up to 1026 deep) every subset of rules is memoized and compiled; on every input the result must equal the un-memoized variant's (itself compared with the reference), and every ordered pair of inputs parsed back to back must give the second input's fresh result.",
+                text="For every base grammar of the family (rules reached repeatedly at one offset through different contexts; all-@no_skip_ws, every mixed skip-mode assignment with whitespace in the inputs, with a pure refusing @check on a rule, two memoized rules related by `@:`, memoized rules that are also pulled in with `>` from includers of either skip mode, long inputs (up to 4097 repetitions; thorough 65537) incl. a grammar whose second alternative re-reads the whole prefix, a memoized rule evaluated inside a @string rule's body and from a field at one offset, a grammar with 70 memoized rules, and a memoized recursive rule reached through call paths of different depth on inputs nested up to 1026 deep) every subset of rules is memoized and compiled; on every input the result must equal the un-memoized variant's (itself compared with the reference), and every ordered pair of inputs parsed back to back must give the second input's fresh result.",
                 ref="§3 C05"),
     "C06": dict(engine="e1-conform", technique="bounded-exhaustive enumeration with probe extern rules counting body evaluations per (rule, offset); multiset compared with the reference's cache-miss events",
                 text="Every rule body of the memo family (and of a @leftrec-over-@memoize family, of rules referenced only from lookaheads, and of memoized rules that fail on the verdict of a check function, in parsers built with and without a user context type) starts with a probe; for every memo subset and input each memoized rule's probe fires at most once per offset, all-memoized grammars stay under rules x (len+1), and the whole probe multiset equals the reference interpreter's (so missing evaluations are noticed too).",
                 ref="§3 C06"),
     "C07": dict(engine="e1-conform", technique="bounded-exhaustive enumeration of left-recursive grammars x inputs against the literal seed-and-grow reference and an interpreter-free closed form; in-process watchdog for termination",
-                text="The usual shape with all tail/base sets up to 2+2 in both alternative orders (bases incl. one guarded by a negative lookahead; rules carrying @memoize next to @leftrec in either order), indirect recursion and eight unusual bodies, under roots that ask for the rule once, with $, or twice at one position, plus two nested left-recursive levels on chains of up to 513 operands and recursive alternatives that share a prefix containing a nested self-reference, on every token string up to the length bound: result tree, consumed bytes and acceptance equal the reference; for the usual recursive-first shape the reference itself is checked against the closed form b x* / left fold; a watchdog reports hangs.",
+                text="The usual shape with all tail/base sets up to 2+2 in both alternative orders (bases incl. one guarded by a negative lookahead; rules carrying @memoize next to @leftrec in either order), indirect recursion and eight unusual bodies, under roots that ask for the rule once, with $, or twice at one position, plus two nested left-recursive levels on chains of up to 513 operands recursive alternatives that share a prefix containing a nested self-reference and two left-recursive rules met at one position, on every token string up to the length bound: result tree, consumed bytes and acceptance equal the reference; for the usual recursive-first shape the reference itself is checked against the closed form b x* / left fold; a watchdog reports hangs.",
                 ref="§3 C07"),
     "C08": dict(engine="e1-conform", technique="bounded-exhaustive enumeration of skipping/non-skipping rule combinations x inputs with whitespace and near-miss characters",
                 text="Trees over every token kind (incl. literals that start with a whitespace character) in skipping and @no_skip_ws roots calling skipping and non-skipping leaves (struct, @string, override, plain nullable), includes carrying the opposite flag, built-in, user-defined and non-idempotent user-defined Whitespace, two reachable includers of one rule with opposite skip modes, on every string up to the length bound over token characters, whitespace and near misses: acceptance, consumed bytes, tree and positions equal the reference.",
                 ref="§3 C08"),
     "C09": dict(engine="e1-conform", technique="bounded-exhaustive enumeration of @position subsets x inputs; reference spans plus model-free range invariants",
-                text="Field trees with every subset of leaf rules marked @position (plus rules that can match the empty string, and rules ending in a group with a nullable alternative) (struct, @string @position, enum override of @position rules), each also with root and leaves memoized, skipping and not, on all inputs with multi-byte characters (incl. U+FEFF in front) and spaces: every range equals the reference span; nested ranges lie inside their parent, successive ones are ordered, @string @position strings equal their slice.",
+                text="Field trees with every subset of leaf rules marked @position (plus rules that can match the empty string, rules ending in a group with a nullable alternative, and lookahead atoms) (struct, @string @position, enum override of @position rules), each also with root and leaves memoized, skipping and not, on all inputs with multi-byte characters (incl. U+FEFF in front) and spaces: every range equals the reference span; nested ranges lie inside their parent, successive ones are ordered, @string @position strings equal their slice.",
                 ref="§3 C09"),
     "C10": dict(engine="e1-conform", technique="bounded-exhaustive enumeration of failing parses; reported offset/detail checked against the reference's failed-attempt log",
-                text="On every failing (grammar, input) pair of the tree corpus (with checks and externs), the memo family, the left-recursive family, choices of 15..34 alternatives and rules ending in a closure of a lone token called from a non-skipping rule: the offset is a char boundary inside the input at which an attempt failed, the detail names an attempt that failed there, without memo/leftrec it lies in [P_strict, P_lenient] (equal in ~97% of cases, so exact), and it is never the sentinel for recursive-first rules.",
+                text="On every failing (grammar, input) pair of the tree corpus (with checks and externs), the memo family, the left-recursive family, choices of 15..34 alternatives, user-defined Whitespace with comments that may stay unterminated, and rules ending in a closure of a lone token called from a non-skipping rule: the offset is a char boundary inside the input at which an attempt failed, the detail names an attempt that failed there, without memo/leftrec it lies in [P_strict, P_lenient] (equal in ~97% of cases, so exact), and it is never the sentinel for recursive-first rules.",
                 ref="§3 C10"),
     "C11": dict(engine="tools-c11", technique="exhaustive enumeration of (text, boundary position) pairs through the real PrettyParseError::from_parse_error against closed-form line/column",
-                text="Every text up to the length bound over {a, é, newline, space, 😀, CR} and over {a, newline, space, NBSP, U+3000, NEL, tab} x every boundary position x file name absent/present (colours off and forced on), plus long-line families and texts built from pieces (LF, VT, FF, CR LF, multi-byte) with line starts at every offset modulo 8, plus the same calls through one reused buffer (enumeration order, and every ordered pair of short texts of equal byte length): no panic, location line, printed source line and caret column equal the closed form.",
+                text="Every text up to the length bound over {a, é, newline, space, 😀, CR} and over {a, newline, space, NBSP, U+3000, NEL, tab} x every boundary position x file name absent/present (and every kind of error on the shorter texts) (colours off and forced on), plus long-line families and texts built from pieces (LF, VT, FF, CR LF, multi-byte) with line starts at every offset modulo 8, plus the same calls through one reused buffer (enumeration order, and every ordered pair of short texts of equal byte length): no panic, location line, printed source line and caret column equal the closed form.",
                 ref="§3 C11"),
     "C13": dict(engine="e1-conform", technique="bounded-exhaustive differential exploration: >Rule vs parenthesised body in every context, real-vs-real and against the reference",
-                text="Every one-hole context up to the node bound x 12 included bodies (incl. bodies that are nothing but an optional or a closure) x 6 directive sets, includes inside a user-defined Whitespace rule on the included rule x skipping/non-skipping includer (plus a second, never-called includer of the same rule with the opposite skip mode, and the same pairs with rule names that contain each other), compiled twice (include / inlined): identical Debug results and error positions on every input, both equal to the reference; compiler acceptance must agree; and the exact-type assertions computed for the inlined grammar must compile against the include variant's generated code (same public types, rustc as judge).",
+                text="Every one-hole context up to the node bound x 12 included bodies (incl. bodies that are nothing but an optional or a closure) x 6 directive sets, includes inside a user-defined Whitespace rule, forwarding chains of includes on the included rule x skipping/non-skipping includer (plus a second, never-called includer of the same rule with the opposite skip mode, and the same pairs with rule names that contain each other), compiled twice (include / inlined): identical Debug results and error positions on every input, both equal to the reference; compiler acceptance must agree; and the exact-type assertions computed for the inlined grammar must compile against the include variant's generated code (same public types, rustc as judge).",
                 ref="§3 C13"),
     "C14": dict(engine="e1-conform", technique="bounded-exhaustive enumeration of grammars x inputs x environment answers of the user functions (deviation-bounded breadth-first search over answer tables)",
                 text="Checks on struct/alias/enum/@string/@string @position/@char rules and extern rules (with and without result type, with and without user context) in every context up to the node bound and in retry contexts that ask for the hooked rule again at the same offset (also @memoize and @leftrec hooked rules), stateful functions that count down a budget kept in the user context (closures over rules that match the empty string), inputs with a multi-byte character; for every input the answer tables are explored breadth-first from the default up to the deviation bound; result and every recorded argument must equal the reference under the same table.",
@@ -52,10 +52,10 @@ CHECKS = {
                 text="A quarter of the C01 trees plus the memo, left-recursive and hook families a deep-nesting family (up to 200 rule entries open at once), long traces (up to 4097 items, > 40 000 trace lines per parse, with failing alternatives, cache hits and left-recursive growth) and every character width at every distance 40..=56 bytes behind a rule entry, all through parse_with_trace too; for the hook families every check / extern function itself runs a traced parse before it answers: result with the recording tracer and with parse_with_trace equals the plain result, events are properly nested with the reference's outcome per (rule, offset), and for grammars without memo/leftrec the whole event sequence equals the reference's.",
                 ref="§3 C19"),
     "C12": dict(engine="tools-c12", technique="bounded-exhaustive enumeration of layout and spelling variants of corpus grammars through the real front end; Debug of the real Grammar compared with the reference structure rendered in the same form",
-                text="~1000 (thorough: ~6000) grammars - samples of every E1 corpus, every tree up to the node bound over two atoms with every operator (precedence), redundant parentheses, every ordered selection of up to 3 directives, @char/@extern forms - each in its canonical text, with each of 7 fillers (spaces, newlines, CRLF, comments) in all gaps at once, every single gap deviation and (thorough) every pair; plus every documented spelling of each pool character in literal, inner-literal, case-insensitive literal, range-start, range-end and @char positions: the Debug structure must be the denoted one, escape spellings must generate the same code as the canonical spelling, and the same texts read from a file by Compile::file (layouts deviating at the start and the end of the file, and everywhere at once) must give the code of the canonical text; box markers on any subset of the mentions of a field are judged through exact-type assertions compiled by rustc; neighbouring literals with every combination of case markers and redundant parentheses are run as parsers.",
+                text="~1000 (thorough: ~6000) grammars - samples of every E1 corpus, every tree up to the node bound over two atoms with every operator (precedence), redundant parentheses, every ordered selection of up to 3 directives, @char/@extern forms - each in its canonical text, with each of 7 fillers (spaces, newlines, CRLF, comments) in all gaps at once, every single gap deviation and (thorough) every pair; plus every documented spelling of each pool character in literal, inner-literal, case-insensitive literal, range-start, range-end and @char positions: the Debug structure must be the denoted one, escape spellings must generate the same code as the canonical spelling, and the same texts read from a file by Compile::file (layouts deviating at the start and the end of the file, and everywhere at once) must give the code of the canonical text; box markers on any subset of the mentions of a field are judged through exact-type assertions compiled by rustc; neighbouring literals with every combination of case markers and redundant parentheses, and every nesting of optional / closure / positive closure / group up to 4 nodes, are run as parsers.",
                 ref="§3 C12", note="Trusted: engine/refpeg/src/astdebug.rs as the reading of the syntax reference. Bounded: deviations of more than two gaps at once; characters outside the pool."),
     "C16": dict(engine="tools-c16", technique="exhaustive enumeration of grammars x settings x integration routes within a corpus, each route in K fresh processes, byte comparison with the library output; peginate! compiled side by side with the library output and run on every input",
-                text="126 (thorough: ~1000) grammars incl. one with 60 multi-type/memoized/exported rules x 3 derive sets x 2 prefixes x routes {library again, library process, CLI, Compile::file, Compile::directory} x K processes, plus the Compile builder with the same settings (prefix, derive set, user context type) given in every order of its setter calls, and Compile::file over an existing destination that is empty, cut inside its header, or another compilation's (shorter or much longer) file, or the compilation of the same file before an edit of its last literal: generated code byte-identical after header/prefix; the macro expansion of 40 grammars gives the same Debug results and root type layout as the library output on every input. The hash-seed dimension is sampled (K processes), everything else is enumerated.",
+                text="126 (thorough: ~1000) grammars incl. one with 60 multi-type/memoized/exported rules x 3 derive sets x 2 prefixes x routes {library again, library process, CLI, Compile::file, Compile::directory} x K processes, plus the Compile builder with the same settings (prefix, derive set, user context type) given in every order of its setter calls, and Compile::file over an existing destination that is empty, cut inside its header, or another compilation's (shorter or much longer) file, or the compilation of the same file before an edit of its last literal, and Compile::directory after a prefix change in a tree whose grammar file is older than its generated file: generated code byte-identical after header/prefix; the macro expansion of 40 grammars gives the same Debug results and root type layout as the library output on every input. The hash-seed dimension is sampled (K processes), everything else is enumerated.",
                 ref="§3 C16", note="Stated limit: std's per-process hash seed cannot be owned by the harness; K fresh processes sample it. Trusted: rustc for the macro route."),
     "C17": dict(engine="tools-c17", technique="fixpoint computation stage1/stage2/stage3 compared token-wise, plus differential run of the shipped and the regenerated front end over the enumerated text corpora",
                 text="Stage 2 (tree's CLI on grammar.ebnf, through rustfmt as bootstrap.sh does) must be token-identical to the shipped generated.rs including the checksum line; a generator built around stage 2 in a scratch copy must regenerate stage 2 exactly; and both front ends must give the same Debug(Result) on every text of the C12/C15 corpora (75k quick, ~1M thorough; valid and invalid).",
@@ -67,7 +67,7 @@ CHECKS = {
                 text="States (grammar content, prefix, destination bytes) per mode - file mode with explicit/default destination, file mode with rustfmt, directory mode with two files, directory mode with rustfmt, directory mode with an explicit destination set (must be ignored) - are explored breadth-first to a fixpoint over menus of 9 grammars (valid, unparsable, rejected by codegen, whitespace-only difference, multi-byte output, not UTF-8 on disk) and 5 prefixes; after every run the destination must be header+prefix+code of the current grammar, an up-to-date destination must keep bytes and mtime, a failing run must leave destinations untouched (other files of a directory run: untouched or complete); with rustfmt on, the text after the header must be exactly the rustfmt of a fresh compilation.",
                 ref="§3 C18", note="Trusted: the library route (generate_source_header, Grammar::from_str, generate_code) as the definition of the expected file; token-wise comparison after the comment header. Outside the alphabet: CRC collisions, concurrent runs, missing rustfmt, derive/user-context changes."),
     "C20": dict(engine="e6-sched", level="model_checking", technique="exhaustive DFS over thread interleavings (shuttle; full for short parses, preemption-bounded for long ones) of real generated parsers with every tracer callback and extern function a scheduling point; plus exhaustive enumeration of sequential call histories up to length 3",
-                text="For 26 (thorough: 46) memoized, left-recursive, whitespace-skipping and deep-nesting grammars (one input nests 300 deep): every ordered sequence of parse calls up to length 3 (own strings, one reused buffer, alternating fresh threads; oracles = reference model, the complete result of the input parsed alone on a fresh thread, and the same in a fresh process; families incl. rarely-hit memo tables after hundreds of hit-free lookups, a memo table with 7000 entries in a failing parse, and a checked @char rule fed characters equal mod 256) and, under shuttle's exhaustive DFS scheduler, every interleaving of two (thorough: also three) short concurrent parses chosen to collide on the same rules and offsets, and for long parses (up to 40, thorough 64, scheduling points per thread) every interleaving with at most 2 (thorough 3) preemptions under a preemption-bounded DFS scheduler, including groups in which one thread parses through the public parse_with_trace while the others parse plainly - every complete schedule's results must equal the reference model's per input.",
+                text="For 26 (thorough: 46) memoized, left-recursive, whitespace-skipping and deep-nesting grammars (one input nests 300 deep): every ordered sequence of parse calls up to length 3 (own strings, one reused buffer, alternating fresh threads; oracles = reference model, the complete result of the input parsed alone on a fresh thread, and the same in a fresh process; families incl. rarely-hit memo tables after hundreds of hit-free lookups, a memo table with 7000 entries in a failing parse, a checked @char rule fed characters equal mod 256, and a case-insensitive literal on inputs that are prefixes of one another) and, under shuttle's exhaustive DFS scheduler, every interleaving of two (thorough: also three) short concurrent parses chosen to collide on the same rules and offsets, and for long parses (up to 40, thorough 64, scheduling points per thread) every interleaving with at most 2 (thorough 3) preemptions under a preemption-bounded DFS scheduler, including groups in which one thread parses through the public parse_with_trace while the others parse plainly - every complete schedule's results must equal the reference model's per input.",
                 ref="§3 C20", note="Granularity: rule entry/exit/cache notices (the tracer seam); finer interleavings are not explored. Shuttle threads share OS thread-locals, so hidden thread-local state is seen as shared state. Trusted: shuttle's DFS scheduler, the reference model."),
 }
 
